@@ -1,9 +1,10 @@
 SPECIFICATION Spec
 CONSTANTS
-  Alphabet <- BigAlphabet
-  MaxLen = 2
+  Alphabet <- QuickAlphabet
+  MaxLen = 5
   Blocks <- BigBlocks
   MaxBlocks = 3
+  BlockAfter = 2
   Dump = TRUE
 INVARIANT AutomatonConsistent
 INVARIANT StrToNumberOK
